@@ -217,6 +217,94 @@ class EnumStage:
         ctx.extra["complete"] = done_all
 
 
+class FuzzStage:
+    """Coverage-guided stage: each worker runs one atheris/libFuzzer campaign in a subprocess
+    (vlib/fuzz.py) with the check's oracle inside the target. jobs = [(mode, seeded)], mode in
+    {'raw', 'hyp'}; seeds(tier) -> list of bytes for the seeded corpus; to_case(mode, data) turns a
+    crashing input into a replayable case; run is the check's run_case."""
+    kind = "atheris"
+
+    def __init__(self, name, prop, jobs, runs, run, to_case, seeds=None, budget_s=None,
+                 max_len=4096):
+        self.name, self.prop, self.jobs, self.runs = name, prop, jobs, runs
+        self.run, self.to_case, self.seeds = run, to_case, seeds
+        self.budget_s = budget_s or {"quick": 60, "thorough": 600}
+        self.workers = len(jobs)
+        self.max_len = max_len
+
+    def worker(self, ctx):
+        import glob as _glob
+        import shutil
+        import subprocess
+        import tempfile
+        mode, seeded = self.jobs[ctx.k]
+        wd = tempfile.mkdtemp(prefix="verif-fuzz-")
+        try:
+            corpus = os.path.join(wd, "corpus")
+            os.makedirs(corpus)
+            if seeded and self.seeds:
+                for i, b in enumerate(self.seeds(ctx.tier)):
+                    with open(os.path.join(corpus, "seed%03d" % i), "wb") as f:
+                        f.write(b)
+            statsfile = os.path.join(wd, "stats.json")
+            budget = self.budget_s[ctx.tier]
+            cmd = [sys.executable, "-m", "vlib.fuzz", self.prop, mode, statsfile, corpus,
+                   "-runs=%d" % self.runs[ctx.tier], "-seed=%d" % (ctx.seed % (2 ** 31 - 1) + 1),
+                   "-artifact_prefix=" + os.path.join(wd, "crash-"), "-max_len=%d" % self.max_len,
+                   "-max_total_time=%d" % max(5, int(budget * 0.8)), "-timeout=120",
+                   "-rss_limit_mb=4096", "-verbosity=0"]
+            env = dict(os.environ, PYTHONPATH=VERIF + os.pathsep + os.environ.get("PYTHONPATH", ""))
+            try:
+                pr = subprocess.run(cmd, cwd=VERIF, env=env, stdout=subprocess.PIPE,
+                                    stderr=subprocess.STDOUT, timeout=budget * 1.5 + 60)
+                outtxt = pr.stdout.decode("utf-8", "replace")
+                rc = pr.returncode
+            except subprocess.TimeoutExpired as e:
+                outtxt = (e.stdout or b"").decode("utf-8", "replace")
+                rc = -9
+            label = "fuzz:%s:%s" % (mode, "seeded" if seeded else "empty")
+            if "No module named 'atheris'" in outtxt or "ModuleNotFoundError" in outtxt and \
+                    "atheris" in outtxt:
+                ctx.labels["atheris-unavailable"] += 1
+                return
+            st = {"execs": 0, "nontrivial": 0}
+            if os.path.exists(statsfile):
+                try:
+                    with open(statsfile) as f:
+                        st = json.load(f)
+                except Exception:
+                    pass
+            ctx.evaluations += int(st.get("execs", 0))
+            ctx.labels[label] += int(st.get("execs", 0))
+            for i in range(int(st.get("nontrivial", 0))):
+                ctx.nontrivial.add(fingerprint("%s:%d" % (self.name, i)))
+            import re as _re
+            m = _re.findall(r"cov: (\d+)", outtxt)
+            if m:
+                ctx.extra["fuzz_cov_edges_%s_%s" % (mode, "seeded" if seeded else "empty")] = \
+                    int(m[-1])
+            crashes = sorted(_glob.glob(os.path.join(wd, "crash-*")))
+            for cpath in crashes:
+                with open(cpath, "rb") as f:
+                    data = f.read()
+                case = self.to_case(mode, data)
+                text = dumps(case)
+                try:
+                    call_case(self.run, loads(text))
+                except Violation as v:
+                    ctx.fail(text, v)
+                    continue
+                raise HarnessError("fuzz crash %s did not reproduce in-process; output tail: %s"
+                                   % (os.path.basename(cpath), outtxt[-800:]))
+            if rc != 0 and not crashes:
+                raise HarnessError("fuzz job %s exited %r without a crash artifact: %s" % (
+                    label, rc, outtxt[-1200:]))
+            if st.get("execs", 0) and ctx.samples == [] and ctx.nontrivial:
+                ctx.samples.append((40, dumps({"fuzz_job": label, "execs": st["execs"]})))
+        finally:
+            shutil.rmtree(wd, ignore_errors=True)
+
+
 def _worker_main(modname, stage_idx, k, W, seed_base, tier, q, known_sigs):
     try:
         import logging
